@@ -51,6 +51,8 @@ func tcpPair() (net.Conn, net.Conn) {
 	if err != nil {
 		panic("tcp accept: " + err.Error())
 	}
+	trackConn(a)
+	trackConn(b)
 	return a, b
 }
 
